@@ -45,8 +45,10 @@ def judge_resp(ctx, cfg, text, states, resp, kind, shape, used, minimise=True):
     if resp.get('relower_flat_ok') and resp.get('relower_blocks_ok') and resp.get('relower_blocks') != resp.get('relower_flat'):
         problems.append(('block-form-recompiles-differently-from-flat-form', 'lower(raise(I, blocks)) != lower(raise(I, no blocks))'))
     if resp.get('relower_flat_ok') and not resp.get('relower_blocks_ok'):
-        # not a C07 matter (the two forms still behave the same in the VM); recompilability of decompiler output is decided by C01
+        # block recovery produced text that no longer compiles although the flat rendering of the same instructions does
+        # (e.g. a label swallowed by an if/else chain while something still refers to it): the structured form has no behaviour at all
         ctx.count('block_form_does_not_recompile_but_flat_does'); ctx.seen('block_recompile_errors', core.norm_msg(core.headline(resp.get('relower_diag') or '')))
+        problems.append(('block-form-does-not-recompile', 'lower(raise(I, blocks)) fails (%s) while lower(raise(I, no blocks)) succeeds' % core.norm_msg(core.headline(resp.get('relower_diag') or ''))[:100]))
     if resp.get('relower_flat') == resp.get('orig'): ctx.count('recompiles_to_original')
     if not resp.get('relower_flat_ok'): ctx.count('flat_form_does_not_recompile'); ctx.seen('flat_recompile_errors', core.norm_msg(core.headline(resp.get('relower_diag') or '')))
     ncmp = 0
@@ -70,6 +72,7 @@ def judge_resp(ctx, cfg, text, states, resp, kind, shape, used, minimise=True):
             def fails(t, tag=tag):
                 rr = ctx.call(make_req(cfg, t, states[:2]))
                 if rr.get('stage') != 'done': return False
+                if tag == 'block-form-does-not-recompile': return rr.get('relower_flat_ok') and not rr.get('relower_blocks_ok')
                 if tag.startswith('vm-'): return any(x['status'] in ('diff', 'new_panic') and 'not implemented' not in (x.get('msg') or '') for x in rr.get('runs', []))
                 return rr.get('relower_flat_ok') and rr.get('relower_blocks_ok') and rr.get('relower_blocks') != rr.get('relower_flat')
             small = LW.minimise_lines(text, fails)
@@ -100,7 +103,7 @@ def run_shard(ctx):
             states = LW.gen_states(r, body, nstates, ri, rf)
             text, kind, shape, used = body.text, 'structured', body.shape, body.used
         else:
-            feats = {'timelabels', 'interrupt', 'countjump', 'goto_time', 'logic_cond'}
+            feats = {'timelabels', 'interrupt', 'countjump', 'goto_time', 'logic_cond', 'labelref'}
             for x in list(feats):
                 if r.chance(0.25): feats.discard(x)
             env = LW.tl_env(cfg, feats)
